@@ -167,13 +167,16 @@ InitInv3 ==
 (* J's name: N = "j.test.evil", M = "evil-j.test"), multiple signatures,   *)
 (* content that must have no effect, empty vs absent lists.                *)
 (***************************************************************************)
+\* ownership "casevar" (Handshake!Ownership): the requesting server's name and the user's server differ in letter case
+\* only, either way round (K: J's name in another letter case); exact names compare, so every handler refuses
+CasePairs == {<<"K", "J">>, <<"J", "K">>, <<"K", "K">>}
 \* make_join: version gate x join rule (also the ones the version does not know) x membership x who asks
 \* (identities: where the restricted-join questions are reached - a well-formed request, a restricted rule - the
 \*  member is in / not in the allowed room and the tables hold the opposite under every other identity: Oth4)
 InitMJV ==
     \E v \in Vers("mjv"), vs \in {"has", "lacks", "none", "empty"},
        jr \in {"public", "invite", "knock", "restricted", "knock_restricted"}, mem \in {"none", "invite", "ban"},
-       ou \in {<<"J", "J">>, <<"R", "R">>, <<"N", "J">>, <<"M", "J">>} :
+       ou \in {<<"J", "J">>, <<"R", "R">>, <<"N", "J">>, <<"M", "J">>} \cup CasePairs :
     \E ao \in (IF vs = "has" /\ ou = <<"J", "J">> /\ jr \in RestrictedRules
                 THEN {<<"listed">>, <<"nouser">>} \X Oth4 ELSE {<<<<"listed">>, "none">>}) :
         /\ sc = [Fam(Base(v), "mjv") EXCEPT !.jr = jr, !.mem = mem, !.pending = (mem = "invite"), !.allow = ao[1], !.oth = ao[2]]
@@ -181,28 +184,30 @@ InitMJV ==
 
 InitMLV ==
     \E v \in Vers("mlv"), mem \in {"join", "invite", "ban", "none"},
-       ou \in {<<"J", "J">>, <<"R", "R">>, <<"N", "J">>, <<"M", "J">>, <<"J", "X">>} :
+       ou \in {<<"J", "J">>, <<"R", "R">>, <<"N", "J">>, <<"M", "J">>, <<"J", "X">>} \cup CasePairs :
         /\ sc = [Fam(Base(v), "mlv") EXCEPT !.mem = mem]
         /\ net = MLReq(ou[1], ou[2]) /\ phase = "mlreq"
 
 InitSJV ==
-    \E v \in Vers("sjv"), sig \in {"valid", "none", "tampered"} \cup MultiSigs, via \in {"none", "local", "remote"},
-       os \in {<<"J", "J">>, <<"R", "R">>, <<"N", "J">>, <<"M", "J">>}, t \in {"member", "other"} :
+    \E v \in Vers("sjv"), sig \in {"valid", "none", "tampered", "casevar"} \cup MultiSigs, via \in {"none", "local", "remote"},
+       os \in {<<"J", "J">>, <<"R", "R">>, <<"N", "J">>, <<"M", "J">>} \cup CasePairs, t \in {"member", "other"} :
     \E x \in (IF sig = "valid" THEN {"none", "tpi", "unknown", "unsigned"} ELSE {"none"}) :
     \* identities: the member's own row against the rows of the other members
     \E mo \in (IF sig = "valid" /\ x = "none" /\ t = "member" THEN MemOth ELSE {<<"none", "none">>}) :
         /\ ~(os[2] = "R" /\ sig \in {"presigned", "presigned_bad"})
+        /\ (sig = "casevar" => CasePartner(os[2]) # "none")
         /\ sc = [Fam(Base(v), "sjv") EXCEPT !.extra = x, !.mem = mo[1], !.oth = mo[2]]
         /\ net = [k |-> "sjreq", origin |-> os[1], room |-> "main", eid |-> "match",
                   ev |-> Ev(t, "join", os[2], "sender", "main", via, sig)]
         /\ phase = "sjreq"
 
 InitInvV ==
-    \E v \in Vers("invv"), sig \in {"valid", "none", "tampered"} \cup MultiSigs, ss \in {"J", "R"}, m \in {"invite", "join"},
+    \E v \in Vers("invv"), sig \in {"valid", "none", "tampered", "casevar"} \cup MultiSigs, ss \in {"J", "R", "K"}, m \in {"invite", "join"},
        km \in {<<FALSE, "none">>, <<TRUE, "join">>, <<TRUE, "leave">>}, st \in {"none", "empty", "given"} :
     \E x \in (IF sig = "valid" THEN {"none", "unknown", "unsigned"} ELSE {"none"}) :
     \E ot \in (IF sig = "valid" /\ x = "none" /\ km[1] THEN {"none", "join", "ban"} ELSE {"none"}) :
         /\ ~(ss = "R" /\ sig \in {"presigned", "presigned_bad"})
+        /\ (sig = "casevar" => CasePartner(ss) # "none")
         /\ sc = [Fam(Base(v), "invv") EXCEPT !.known = km[1], !.mem = km[2], !.stripped = st, !.extra = x, !.oth = ot]
         /\ net = [k |-> "invreq", room |-> "main", ev |-> Ev("member", m, ss, "invitee", "main", "none", sig)]
         /\ phase = "invreq"
